@@ -37,6 +37,8 @@ def exhaustive_specs(rng, tier):
 
 
 def run(res, replay=None):
+    # structural tie of the configuration classes (locus.py, lineage.py, StateSpace.alpha): translate the CURRENT source and re-check proofs/GenConfigsEquiv.v
+    import translate_step; (res.proof is not None) and translate_step.run(res.proof, pid=res.pid, tie='configs')
     # structural tie of the class Transition of phasegen/state_space.py: translate the CURRENT source and re-check proofs/GenTransitionEquiv.v
     import translate_step; (res.proof is not None) and translate_step.run(res.proof, pid=res.pid, tie='transition')
     rng = random.Random(res.seed)
